@@ -129,6 +129,20 @@ func seqCase(c *core.Ctx, r *core.Rand, i int) {
 			size = 1 << 20 / (1 + r.Intn(4)) // a large message now and then
 		}
 		t, b := message(r, size)
+		if r.P(1, 5) {
+			// a stream item need not be a structure: a bare scalar whose value is padded on the wire
+			t = gen.RandLeaf(r, gen.RandTag(r), wire.Type(2+r.Intn(9)))
+			if t.Type == wire.TextString || t.Type == wire.ByteString {
+				t.Bytes = r.Bytes(1 + r.Intn(23))
+				if t.Type == wire.TextString {
+					for q := range t.Bytes {
+						t.Bytes[q] = 'a' + t.Bytes[q]%26
+					}
+				}
+			}
+			b = wire.Gen(t)
+			c.Count("scalar_messages", 1)
+		}
 		trees = append(trees, t)
 		stream = append(stream, b...)
 		bounds = append(bounds, len(stream))
@@ -424,7 +438,7 @@ func Spec() *core.Spec {
 			"truncation at EVERY byte offset of messages up to 2 KB behind a complete message; announced lengths {max-16 .. max+8, 2*max, 2^31, 2^32-8, 2^32-1} for max in {64 KiB, 1 MiB} with consumed-byte, requested-size and TotalAlloc monitors; " +
 			"the last chunk delivered together with io.EOF; byte-wise delivery against a real server connection and a real client connection. distinct = distinct (segmentation, boundaries) / (size, offset class) combinations",
 		Assumptions: []string{"messages are compared as trees read back by the harness from the generic value", "alloc monitor: runtime.MemStats.TotalAlloc delta around a single-goroutine call, threshold 256 KiB"},
-		Required:    []string{"sequences", "recvs", "truncations", "limit_cases.over", "limit_cases.within", "eof_with_data_cases", "e2e_server_messages", "e2e_client_messages", "segmentation.1-byte", "segmentation.one-read"},
+		Required:    []string{"sequences", "recvs", "scalar_messages", "truncations", "limit_cases.over", "limit_cases.within", "eof_with_data_cases", "e2e_server_messages", "e2e_client_messages", "segmentation.1-byte", "segmentation.one-read"},
 		Families: []core.Family{
 			{Name: "sequences", N: nOf(20000, 800000), Run: seqCase},
 			{Name: "truncation", Exhaustive: true, N: nOf(8*6, 8*200), Run: truncCase},
